@@ -15,6 +15,8 @@ G1 = [
     T(["P", "r", "B-,A-", "*"]),
     T(["P", "q", "A+", "*"]),
     T(["L", "B", "+", "C", "+", "*", "ID:Z:x"]),
+    T(["L", "B", "+", "A", "+", "*"]),          # closes the circle A -> B -> A
+    T(["P", "c", "A+,B+", "*,*"]),              # circular path
 ]
 
 # a core that keeps depth-5/6 affordable
@@ -35,5 +37,7 @@ G2 = [
     T(["U", "u1", "a e1 g1"]),
     T(["U", "u2", "u1 o1"]),
     T(["U", "u1", "b"]),
+    T(["O", "o4", "a+ g1+ b+"]),               # a gap as item of an ordered group
 ]
+G2_SINGLE = [l for l in G2 if l != T(["U", "u1", "b"])]   # no multi-line group
 G2_CORE = [G2[i] for i in (0, 1, 3, 4, 7, 8, 9, 10, 11, 13, 14)]
